@@ -264,3 +264,96 @@ pub fn cli(ctx: &Ctx) -> Stats {
         }
     })
 }
+
+/// Thorough, best effort: one generated input of > 2.2 GiB of bases so that the `>= 1 GiB` batch
+/// threshold of the vector pass flushes every few records (DESIGN.md C08).  Content is periodic so the
+/// reference multiplicities are computed analytically (period p: all windows at i = r mod p are equal).
+pub fn big(ctx: &Ctx) -> Stats {
+    use std::io::Write;
+    let mut st = Stats::new();
+    let mut rng = Rng::keyed(ctx.seed, "c08.big", 0);
+    let k = rng.usize(2, 4);
+    let rec_len: usize = (256 << 20) + rng.usize(0, 1000);
+    let units: [&[u8]; 4] = [b"A", b"AC", b"ACG", b"AACGT"];
+    // 9 big records + base-less records in the middle and at the very end
+    let mut plan: Vec<(String, Option<&[u8]>, usize)> = Vec::new();
+    for i in 0..9 {
+        plan.push((format!("big{}", i), Some(units[(i + rng.usize(0, 3)) % 4]), rec_len + i));
+        if i == 3 || i == 8 {
+            plan.push((format!("empty{}", i), None, 0));
+        }
+    }
+    let sc = Scratch::new(ctx, "c08big");
+    let inp = sc.path("big.fa");
+    {
+        let f = std::fs::File::create(&inp).expect("create big input");
+        let mut w = std::io::BufWriter::with_capacity(1 << 22, f);
+        for (id, unit, len) in &plan {
+            w.write_all(format!(">{}\n", id).as_bytes()).unwrap();
+            if let Some(u) = unit {
+                let block: Vec<u8> = (0..(u.len() * 4096)).map(|i| u[i % u.len()]).collect();
+                let mut left = *len;
+                while left > 0 {
+                    let n = left.min(block.len());
+                    // keep the phase: blocks are multiples of the unit length
+                    w.write_all(&block[..n]).unwrap();
+                    left -= n;
+                }
+                w.write_all(b"\n").unwrap();
+            }
+        }
+        w.flush().unwrap();
+    }
+    // analytic reference: per record, windows by phase
+    let mut global: BTreeMap<u64, u64> = BTreeMap::new();
+    let mut per_rec: Vec<Vec<(u64, u64)>> = Vec::new(); // (canonical code, windows with it)
+    for (_, unit, len) in &plan {
+        let mut v = Vec::new();
+        if let Some(u) = unit {
+            if *len >= k {
+                let p = u.len();
+                let last = len - k; // last window start
+                for r in 0..p.min(last + 1) {
+                    let text: Vec<u8> = (0..k).map(|j| u[(r + j) % p]).collect();
+                    let code = model::canonical(model::encode(&text).unwrap() as u64, k);
+                    let cnt = ((last - r) / p + 1) as u64;
+                    v.push((code, cnt));
+                    *global.entry(code).or_insert(0) += cnt;
+                }
+            }
+        }
+        per_rec.push(v);
+    }
+    let cfg = CovCfg { k, bin_size: rng.usize(1, 50), bin_count: rng.usize(2, 12), norm: false, threads: 16, mem_gb: 1.0, delim: " ".into(), alt: false };
+    let total_bases: usize = plan.iter().map(|p| p.2).sum();
+    let case = Json::obj().set("cfg", cfg.json()).set("records", Json::u(plan.len())).set("total_bases", Json::Int(total_bases as i128)).set("layout", Json::s("9 periodic records of ~256 MiB + base-less records after #3 and at the end"));
+    note_current_case(ctx, &case);
+    st.case(true, mix(total_bases as u64));
+    st.sample(case.clone());
+    let t0 = std::time::Instant::now();
+    match run_cov(&inp, None, &sc.subdir("out"), &cfg) {
+        Err((sig, msg)) => st.violate(&format!("big.{}", sig), msg, case),
+        Ok(data) => {
+            let ls = lines(&data);
+            if ls.len() != plan.len() {
+                st.violate("big.cov.rowcount", format!("{} rows for {} records (batches flushed every ~4 records)", ls.len(), plan.len()), case);
+            } else {
+                for (i, (row, v)) in ls.iter().zip(per_rec.iter()).enumerate() {
+                    let mut h = vec![0u64; cfg.bin_count];
+                    for (code, cnt) in v {
+                        let b = ((global[code] / cfg.bin_size as u64) as usize).min(cfg.bin_count - 1);
+                        h[b] += cnt;
+                    }
+                    let fields: Vec<f64> = split_fields(row, b" ").iter().filter_map(|f| parse_f64(f)).collect();
+                    if fields.len() != cfg.bin_count || fields.iter().zip(h.iter()).any(|(a, b)| *a != *b as f64) {
+                        st.violate("big.cov.value", format!("row {}: {:?} != expected {:?}", i, &fields[..fields.len().min(12)], &h[..h.len().min(12)]), case.clone());
+                        break;
+                    }
+                }
+            }
+        }
+    }
+    st.set_extra("big_input_bytes", Json::Int(std::fs::metadata(&inp).map(|m| m.len()).unwrap_or(0) as i128));
+    st.set_extra("coverage_run_s", Json::Num(t0.elapsed().as_secs_f64()));
+    st
+}
